@@ -452,6 +452,18 @@ TTool ==
                       /\ (ToS(E.routs) # UNION {ToS(St(g, i).outs) \cup ToS(St(g, i).iouts) : i \in {x \in Ids(g) : RuleName(St(g, x)) = E.rule}}
                           \/ ~E.sorted \/ Len(E.routs) # Cardinality(ToS(E.routs)))
                      THEN {V("C19", "-t targets rule does not list exactly the outputs of the statements that use the rule, in order", "")} ELSE {})
+               \cup (IF E.tool = "query" /\ E.rc = 0 /\ "q" \in DOMAIN E /\ NoDyndep(g) /\ E.targets # <<>>
+                      /\ LET t == E.targets[1]
+                             p == Prod(g, t)
+                             outsOf(i) == ToS(St(g, i).outs) \cup ToS(St(g, i).iouts)
+                             insExp == IF p = 0 THEN {} ELSE {"e:" \o x : x \in ToS(St(g, p).ex)} \cup {"i:" \o x : x \in ToS(St(g, p).im)} \cup {"o:" \o x : x \in ToS(St(g, p).oo)}
+                         IN \/ E.q.head # t \o ":"
+                            \/ E.q.rule # (IF p = 0 THEN "" ELSE RuleName(St(g, p)))
+                            \/ ToS(E.q.ins) # insExp \/ Len(E.q.ins) # Cardinality(insExp)
+                            \/ ToS(E.q.vals) # (IF p = 0 THEN {} ELSE ToS(St(g, p).val))
+                            \/ ToS(E.q.outs) # UNION {outsOf(i) : i \in {x \in Ids(g) : t \in DeclIn(St(g, x))}}
+                            \/ ToS(E.q.vfor) # UNION {outsOf(i) : i \in {x \in Ids(g) : t \in ToS(St(g, x).val)}}
+                     THEN {V("C19", "-t query does not report the statement, inputs by kind, validations and consumers the manifest defines for the target", "")} ELSE {})
                \cup (IF E.tool = "targets-all" /\ E.rc = 0 /\ "tall" \in DOMAIN E /\ (ToS(E.tall) # ToolTargetsAll(g) \/ Len(E.tall) # Cardinality(ToS(E.tall)))
                      THEN {V("C19", "-t targets all does not list every output of the manifest once with its rule", "")} ELSE {})
                \cup (IF E.json = "bad" THEN {V("C19", "compdb output is not valid JSON: -t " \o E.tool, "")} ELSE {})
